@@ -296,7 +296,9 @@ def cut_loop(ex, state, st, kind, spec, ordinal):
         attrs |= a2
         subs |= s2
         names.add(idx_name)
-    for n in sorted(names):
+    # locals mutated in place (xs.append(..), d[k] = ..) or listed under `modifies`, with a declared type: fresh value too
+    typed_in_place = {p_ for p_ in (attrs | subs | set(spec.get("modifies", []))) if "." not in p_ and p_ in spec.get("vars", {})}
+    for n in sorted(names | typed_in_place):
         cur = state.frame.locals.get(n)
         typ = spec.get("vars", {}).get(n)
         if typ is not None:
